@@ -196,7 +196,7 @@ pub fn enumerate(n: usize, leaves: &[G], in_word: bool, out: &mut Vec<G>) {
         if !matches!(s, G::Many(_)) {
             out.push(G::Many(Box::new(s.clone())));
         }
-        if !in_word && dd_ok(s) {
+        if dd_ok(s) || (in_word && matches!(s, G::Nt(_) | G::Cmd(_))) {
             out.push(G::Dd(Box::new(s.clone()), "dd".to_string()));
         }
     }
@@ -243,6 +243,7 @@ fn dd_ok(g: &G) -> bool {
 fn word_part_ok(g: &G) -> bool {
     match g {
         G::Lit(_, None) | G::Nt(_) | G::Cmd(_) => true,
+        G::Dd(x, _) => word_inner_ok(x),
         G::Opt(x) => word_inner_ok(x),
         G::Alt(v) | G::Seq(v) | G::Fb(v) => v.iter().all(word_inner_ok),
         G::Many(x) => word_inner_ok(x),
@@ -252,7 +253,7 @@ fn word_part_ok(g: &G) -> bool {
 fn word_inner_ok(g: &G) -> bool {
     match g {
         G::Lit(_, None) | G::Nt(_) | G::Cmd(_) => true,
-        G::Opt(x) | G::Many(x) => word_inner_ok(x),
+        G::Opt(x) | G::Many(x) | G::Dd(x, _) => word_inner_ok(x),
         G::Alt(v) | G::Seq(v) | G::Fb(v) => v.iter().all(word_inner_ok),
         _ => false,
     }
